@@ -36,57 +36,63 @@ import (
 
 type target struct {
 	file, recv, name string
+	cases            bool // the function is an event loop `for { select { case ...: body } }`: one function per case
 	iter             bool // translate ONE ITERATION of the function's (single, conditional) top-level loop, locals as parameters
 }
 
 // the decision functions covered (file relative to the repository root, receiver type, function name)
 var targets = []target{
-	{"types/header.go", "Header", "ValidateBasic", false},
-	{"types/data.go", "Signature", "ValidateBasic", false},
-	{"types/signed_header.go", "SignedHeader", "ValidateBasic", false},
-	{"types/data.go", "", "Validate", false},
-	{"types/state.go", "State", "NextState", false},
-	{"block/manager.go", "Manager", "execValidate", false},
-	{"block/manager.go", "Manager", "retrieveBatch", false},
-	{"block/manager.go", "Manager", "publishBlockInternal", false},
-	{"block/sync.go", "Manager", "updateState", false},
-	{"block/sync.go", "Manager", "trySyncNextBlock", false},
-	{"block/manager.go", "Manager", "isUsingExpectedSingleSequencer", false},
-	{"block/manager.go", "Manager", "isValidSignedData", false},
-	{"block/manager.go", "Manager", "exponentialBackoff", false},
-	{"block/aggregation.go", "", "getRemainingSleep", false},
-	{"block/pending_base.go", "pendingBase", "numPending", false},
-	{"block/pending_base.go", "pendingBase", "isEmpty", false},
-	{"block/retriever.go", "Manager", "handlePotentialHeader", false},
-	{"block/retriever.go", "Manager", "handlePotentialData", false},
-	{"block/manager.go", "Manager", "IsDAIncluded", false},
-	{"block/manager.go", "Manager", "SetRollkitHeightToDAHeight", false},
-	{"block/da_includer.go", "Manager", "incrementDAIncludedHeight", false},
-	{"sequencers/single/queue.go", "", "batchKey", false},
-	{"sequencers/single/queue.go", "BatchQueue", "AddBatch", false},
-	{"sequencers/single/queue.go", "BatchQueue", "Next", false},
-	{"sequencers/single/sequencer.go", "Sequencer", "isValid", false},
-	{"sequencers/single/sequencer.go", "Sequencer", "SubmitBatchTxs", false},
-	{"sequencers/single/sequencer.go", "Sequencer", "GetNextBatch", false},
-	{"pkg/store/store.go", "DefaultStore", "SetHeight", false},
-	{"pkg/store/store.go", "DefaultStore", "Height", false},
-	{"pkg/store/store.go", "DefaultStore", "SaveBlockData", false},
-	{"pkg/store/store.go", "DefaultStore", "GetHeader", false},
-	{"pkg/store/store.go", "DefaultStore", "UpdateState", false},
-	{"pkg/store/store.go", "DefaultStore", "SetMetadata", false},
-	{"pkg/store/store.go", "", "encodeHeight", false},
-	{"pkg/store/store.go", "", "decodeHeight", false},
-	{"block/manager.go", "", "getInitialState", false},
-	{"block/retriever.go", "Manager", "RetrieveLoop", false},
-	{"block/submitter.go", "Manager", "HeaderSubmissionLoop", false},
-	{"block/submitter.go", "Manager", "DataSubmissionLoop", false},
-	{"block/manager.go", "Manager", "LoadCache", false},
-	{"block/manager.go", "Manager", "SaveCache", false},
-	{"pkg/cache/cache.go", "", "saveMapGob", false},
-	{"block/pending_base.go", "pendingBase", "setLastSubmittedHeight", false},
+	{file: "types/header.go", recv: "Header", name: "ValidateBasic"},
+	{file: "types/data.go", recv: "Signature", name: "ValidateBasic"},
+	{file: "types/signed_header.go", recv: "SignedHeader", name: "ValidateBasic"},
+	{file: "types/data.go", recv: "", name: "Validate"},
+	{file: "types/state.go", recv: "State", name: "NextState"},
+	{file: "block/manager.go", recv: "Manager", name: "execValidate"},
+	{file: "block/manager.go", recv: "Manager", name: "retrieveBatch"},
+	{file: "block/manager.go", recv: "Manager", name: "publishBlockInternal"},
+	{file: "block/sync.go", recv: "Manager", name: "updateState"},
+	{file: "block/sync.go", recv: "Manager", name: "trySyncNextBlock"},
+	{file: "block/manager.go", recv: "Manager", name: "isUsingExpectedSingleSequencer"},
+	{file: "block/manager.go", recv: "Manager", name: "isValidSignedData"},
+	{file: "block/manager.go", recv: "Manager", name: "exponentialBackoff"},
+	{file: "block/aggregation.go", recv: "", name: "getRemainingSleep"},
+	{file: "block/pending_base.go", recv: "pendingBase", name: "numPending"},
+	{file: "block/pending_base.go", recv: "pendingBase", name: "isEmpty"},
+	{file: "block/retriever.go", recv: "Manager", name: "handlePotentialHeader"},
+	{file: "block/retriever.go", recv: "Manager", name: "handlePotentialData"},
+	{file: "block/manager.go", recv: "Manager", name: "IsDAIncluded"},
+	{file: "block/manager.go", recv: "Manager", name: "SetRollkitHeightToDAHeight"},
+	{file: "block/da_includer.go", recv: "Manager", name: "incrementDAIncludedHeight"},
+	{file: "sequencers/single/queue.go", recv: "", name: "batchKey"},
+	{file: "sequencers/single/queue.go", recv: "BatchQueue", name: "AddBatch"},
+	{file: "sequencers/single/queue.go", recv: "BatchQueue", name: "Next"},
+	{file: "sequencers/single/sequencer.go", recv: "Sequencer", name: "isValid"},
+	{file: "sequencers/single/sequencer.go", recv: "Sequencer", name: "SubmitBatchTxs"},
+	{file: "sequencers/single/sequencer.go", recv: "Sequencer", name: "GetNextBatch"},
+	{file: "pkg/store/store.go", recv: "DefaultStore", name: "SetHeight"},
+	{file: "pkg/store/store.go", recv: "DefaultStore", name: "Height"},
+	{file: "pkg/store/store.go", recv: "DefaultStore", name: "SaveBlockData"},
+	{file: "pkg/store/store.go", recv: "DefaultStore", name: "GetHeader"},
+	{file: "pkg/store/store.go", recv: "DefaultStore", name: "UpdateState"},
+	{file: "pkg/store/store.go", recv: "DefaultStore", name: "SetMetadata"},
+	{file: "pkg/store/store.go", recv: "", name: "encodeHeight"},
+	{file: "pkg/store/store.go", recv: "", name: "decodeHeight"},
+	{file: "block/manager.go", recv: "", name: "getInitialState"},
+	{file: "block/retriever.go", recv: "Manager", name: "RetrieveLoop"},
+	{file: "block/submitter.go", recv: "Manager", name: "HeaderSubmissionLoop"},
+	{file: "block/submitter.go", recv: "Manager", name: "DataSubmissionLoop"},
+	{file: "block/manager.go", recv: "Manager", name: "LoadCache"},
+	{file: "block/manager.go", recv: "Manager", name: "SaveCache"},
+	{file: "pkg/cache/cache.go", recv: "", name: "saveMapGob"},
+	{file: "block/pending_base.go", recv: "pendingBase", name: "setLastSubmittedHeight"},
 	{file: "block/submitter.go", name: "submitToDA", iter: true},
-	{"types/da.go", "", "SubmitWithHelpers", false},
-	{"types/da.go", "", "RetrieveWithHelpers", false},
+	{file: "block/aggregation.go", recv: "Manager", name: "lazyAggregationLoop", cases: true},
+	{file: "block/aggregation.go", recv: "Manager", name: "normalAggregationLoop", cases: true},
+	{file: "block/aggregation.go", recv: "Manager", name: "produceBlock"},
+	{file: "block/sync.go", recv: "Manager", name: "SyncLoop", cases: true},
+	{file: "block/sync.go", recv: "Manager", name: "handleEmptyDataHash"},
+	{file: "types/da.go", recv: "", name: "SubmitWithHelpers"},
+	{file: "types/da.go", recv: "", name: "RetrieveWithHelpers"},
 }
 
 var fset = token.NewFileSet()
@@ -805,6 +811,18 @@ func hoistable(e ast.Expr) (*ast.CallExpr, bool) {
 	return nil, false
 }
 
+func sanitizeIdent(s string) string {
+	var b strings.Builder
+	for _, r := range s {
+		if (r >= 'a' && r <= 'z') || (r >= 'A' && r <= 'Z') || (r >= '0' && r <= '9') || r == '_' {
+			b.WriteRune(r)
+		} else {
+			b.WriteRune('_')
+		}
+	}
+	return b.String()
+}
+
 func recvType(fd *ast.FuncDecl) string {
 	if fd.Recv == nil || len(fd.Recv.List) != 1 {
 		return ""
@@ -897,6 +915,87 @@ func main() {
 			for _, n := range p.Names {
 				params = append(params, q(n.Name))
 			}
+		}
+		if tg.cases {
+			// an event loop: the last statement is `for { select { case <-a: ...; case x := <-b: ...; ... } }`.  One
+			// function per case: its body, then `return $continue`; `continue` likewise; a `return` is the loop's.
+			// Statements before the loop that only create timers / tickers / channels or defer their release are kept;
+			// anything else before the loop is not part of an event's handling and is left out.
+			var sel *ast.SelectStmt
+			if n := len(fd.Body.List); n >= 1 {
+				if fs, ok := fd.Body.List[n-1].(*ast.ForStmt); ok && fs.Init == nil && fs.Cond == nil && fs.Post == nil && len(fs.Body.List) == 1 {
+					sel, _ = fs.Body.List[0].(*ast.SelectStmt)
+				}
+			}
+			if sel == nil {
+				fmt.Fprintf(&b, "Definition %s_cases : gfun := {| f_recv := None; f_params := []; f_body := [SUnknown %s] |}.\n\n", ident, q("not an event loop: "+key))
+				table = append(table, "("+q(key+"$cases")+", "+ident+"_cases)")
+				continue
+			}
+			var prelude []string
+			for _, st := range fd.Body.List[:len(fd.Body.List)-1] {
+				keep := false
+				switch x := st.(type) {
+				case *ast.DeferStmt:
+					keep = true
+				case *ast.AssignStmt:
+					if x.Tok == token.DEFINE && len(x.Rhs) == 1 {
+						if c, ok := x.Rhs[0].(*ast.CallExpr); ok {
+							f := text(c.Fun)
+							keep = f == "time.NewTimer" || f == "time.NewTicker" || f == "make"
+						}
+					}
+				}
+				if keep {
+					prelude = append(prelude, t.stmt(st))
+				}
+			}
+			for _, c := range sel.Body.List {
+				cc := c.(*ast.CommClause)
+				name, recvVar := "default", ""
+				var ch ast.Expr
+				switch cm := cc.Comm.(type) {
+				case *ast.ExprStmt:
+					if u, ok := cm.X.(*ast.UnaryExpr); ok && u.Op == token.ARROW {
+						ch = u.X
+					}
+				case *ast.AssignStmt:
+					if len(cm.Lhs) == 1 && len(cm.Rhs) == 1 {
+						if u, ok := cm.Rhs[0].(*ast.UnaryExpr); ok && u.Op == token.ARROW {
+							ch = u.X
+							if id, ok := cm.Lhs[0].(*ast.Ident); ok {
+								recvVar = id.Name
+							}
+						}
+					}
+				}
+				if ch != nil {
+					name = text(ch)
+					name = strings.TrimSuffix(name, ".C")
+					name = strings.TrimSuffix(name, "()")
+					if i := strings.LastIndex(name, "."); i >= 0 {
+						name = name[i+1:]
+					}
+				}
+				t.nresults = 0
+				var out []string
+				out = append(out, prelude...)
+				t.inEndless = true
+				for _, st := range cc.Body {
+					out = append(out, t.stmt(st))
+				}
+				t.inEndless = false
+				out = append(out, "(SReturn [(EVar "+q("$continue")+")])")
+				ps := append([]string{}, params...)
+				if recvVar != "" {
+					ps = append(ps, q(recvVar))
+				}
+				cid := ident + "_case_" + sanitizeIdent(name)
+				fmt.Fprintf(&b, "(* %s: %s, the case `%s` of its event loop *)\nDefinition %s : gfun := {| f_recv := %s; f_params := %s; f_body :=\n  %s |}.\n\n",
+					tg.file, key, printable(text(cc.Comm)), cid, recv, list(ps), list(out))
+				table = append(table, "("+q(key+"$"+name)+", "+cid+")")
+			}
+			continue
 		}
 		if tg.iter {
 			// ONE ITERATION of the function's top-level conditional loop `for cond { body }`: a function of the
